@@ -313,6 +313,13 @@ def gen_conf(rng, ctx, k=None):
                 e["sub"] = rng.choice(["multus", "a"])
             confdir.append(e)
             dnames.append(n)
+            if rng.random() < 0.4:
+                # a file whose NAME is exactly that of this network but whose content is another network's: a network is
+                # selected by the "name" inside the file, never by the file's name
+                dz = {"name": "decoy-%d" % j, "type": "fakecni", "tag": "z%d" % j}
+                confdir.append({"file": n + rng.choice([".conf", ".json"]), "text": json.dumps(dz)})
+                dnames.append("decoy-%d" % j)
+                ctx.dist("conf:file-named-like-another-network")
         ctx.dist("conf:with-confdir")
     known = names + dnames
     nd = rng.choice([0, 1, 1, 1, 2, 2, 3])
